@@ -45,7 +45,7 @@ def stragglers_then_failure(k, is_async):
     def rec(what):
         with lock:
             log.append((time.time(), what))
-    slow = tawazi.xn(named(lambda: (rec("slow-start"), time.sleep(0.8), rec("slow-end"))[0], "sc_slow%d" % k), resource=Resource.thread, priority=5)
+    slow = tawazi.xn(named(lambda: (rec("slow-start"), time.sleep(1.5), rec("slow-end"))[0], "sc_slow%d" % k), resource=Resource.thread, priority=5)
     bad = tawazi.xn(named(lambda: (_ for _ in ()).throw(Boom("bad")), "sc_bad%d" % k), resource=Resource.main_thread, priority=1)
 
     def d1():
@@ -53,9 +53,9 @@ def stragglers_then_failure(k, is_async):
     dag1 = tawazi.dag(named(d1, "sc_d1_%d" % k), max_concurrency=2, is_async=is_async)
     y_started = threading.Event()
     y = tawazi.xn(named(lambda: (rec("y-start"), y_started.set())[0], "sc_y%d" % k), resource=Resource.async_thread if k % 2 else Resource.thread, priority=5)
-    # m gives the worker that was handed y up to 0.3 s to start it (robust against a loaded machine; the nodes left
-    # running by the earlier calls last 0.8 s), then fails
-    m = tawazi.xn(named(lambda: (y_started.wait(0.3), rec("m-raise"), (_ for _ in ()).throw(Boom("m")))[0], "sc_m%d" % k), resource=Resource.main_thread, priority=1)
+    # m gives the worker that was handed y up to 0.6 s to start it (robust against a loaded machine; the nodes left
+    # running by the earlier calls last 1.5 s), then fails
+    m = tawazi.xn(named(lambda: (y_started.wait(0.6), rec("m-raise"), (_ for _ in ()).throw(Boom("m")))[0], "sc_m%d" % k), resource=Resource.main_thread, priority=1)
 
     def d2():
         return y(), m()
@@ -75,7 +75,7 @@ def stragglers_then_failure(k, is_async):
         out = [call(dag1), call(dag1)]
         out.append(call(dag2))
         rec("call3-raised")
-        time.sleep(1.2)
+        time.sleep(1.8)
         return out
     st = in_thread(run, 15)
     msgs = []
